@@ -262,9 +262,12 @@ class BDDNonTerminalNode(BDDNode):
             raise RuntimeError('%s in not in %s' % (self.var, O))
 
         for son in [self.low, self.high]:
-            if (isinstance(son, BDDNonTerminalNode) and
-                    not O.in_order(self.var, son.var)):
-                return False
+            if isinstance(son, BDDNonTerminalNode):
+                if son.var not in O:
+                    raise RuntimeError('%s in not in %s' % (son.var, O))
+
+                if not O.in_order(self.var, son.var):
+                    return False
 
         if (self.high.respect_ordering(O, checked) and
                 self.low.respect_ordering(O, checked)):
